@@ -98,6 +98,8 @@ class Engine(CoreMixin, ExprMixin, CallMixin, StmtMixin, BuiltinMixin):
         self.set_iterations = []
         self.dict_known = {}
         self.callee_writes = {}
+        self.oos_paths = []
+        self.partial_ok = bool(contract.ghost.get("partial"))
 
     def contract_allows(self, ecls):
         for names, _ in self.contract.raises + self.contract.may_raise:
@@ -207,6 +209,7 @@ class Engine(CoreMixin, ExprMixin, CallMixin, StmtMixin, BuiltinMixin):
                     raise OutOfSubset(f"decorator @{dsrc} is not modelled (it may change what the function means)", fi.node)
             st = self.entry_state(contract, fi)
             entry_env = dict(st.env)
+            self.entry_env_for_reach = entry_env
             self.spec_state = st
             sp0 = SpecEval(self, entry_env, glob=fi.glob)
             pre = sp0.compile_bool(contract.requires)
@@ -226,6 +229,7 @@ class Engine(CoreMixin, ExprMixin, CallMixin, StmtMixin, BuiltinMixin):
             rep.out_of_subset = f"{e} (L{line})"
         except RecursionError:
             rep.out_of_subset = "executor recursion"
+        rep.oos_paths = list(getattr(self, "oos_paths", []))
         rep.notes = list(self.notes)
         rep.trusted = sorted(self.trusted_used)
         rep.frame_log = list(self.frame_log)
@@ -277,6 +281,12 @@ class Engine(CoreMixin, ExprMixin, CallMixin, StmtMixin, BuiltinMixin):
                     self.obl(f"post@raise[{exc.etype.__name__}]", node, st, Or(*allowed),
                              detail=f"raises {exc.etype.__name__} only if allowed condition")
                 self.cover(node, st, f"raise {exc.etype.__name__}")
+            elif sig[0] == "oos":
+                # the path left the subset: its outcome is undecided (never a verdict)
+                o = self.obl("post@oos", end, st, FALSE, detail=f"path leaves the verifier's subset: {sig[1]}")
+                if o is not None:
+                    o.oos = True
+                self.oos_paths.append(sig[1])
             else:
                 raise OutOfSubset("loop control escaping function")
         self.spec_state = None
@@ -348,6 +358,9 @@ class Engine(CoreMixin, ExprMixin, CallMixin, StmtMixin, BuiltinMixin):
 
     def discharge(self, rep, timeout, keep_dir, pool):
         def run(o):
+            if getattr(o, "oos", False):
+                o.result = smt.Result("unknown", "", 0.0, "path out of subset", [("none", "out-of-subset", 0.0)], "")
+                return o
             text = self.vc_text(o, rep=rep)
             if o.expect == "sat":
                 r = smt.solve_text(text, timeout=2.0, keep_dir=keep_dir, name=o.name,
@@ -400,6 +413,11 @@ class Engine(CoreMixin, ExprMixin, CallMixin, StmtMixin, BuiltinMixin):
             rep, o = ro
             o.result = smt.solve_text(text_of(ro), timeout=getattr(self, "cover_timeout", 1.0), keep_dir=keep_dir, name=o.name, order=["z3-5.1.0"], quick_first=False)
             return ro
+        for ro in work:
+            if getattr(ro[1], "oos", False):
+                ro[1].result = smt.Result("unknown", "", 0.0, "path out of subset", [("none", "out-of-subset", 0.0)], "")
+        work_all = work
+        work = [ro for ro in work if not getattr(ro[1], "oos", False)]
         obls = [ro for ro in work if ro[1].kind != "cover"]
         covers = [ro for ro in work if ro[1].kind == "cover"]
         with ThreadPoolExecutor(jobs) as pool:
@@ -418,5 +436,5 @@ class Engine(CoreMixin, ExprMixin, CallMixin, StmtMixin, BuiltinMixin):
                 self.lean_race = True
         with ThreadPoolExecutor(jobs) as pool:
             list(pool.map(cover, covers))
-        for rep, o in work:
+        for rep, o in work_all:
             (rep.covers if o.kind == "cover" else rep.obligations).append(o)
